@@ -8,7 +8,7 @@ from .c10 import make_pyramid
 
 PROP = 'C14'
 MODULE = 'WaveletsVerif.Properties.C14'
-THEOREMS = ['WV.C14.DWTForwardM_level_axes', 'WV.C14.DWTForwardM_two_eq_four', 'WV.C14.DWTInverseM_two_eq_four', 'WV.C14.DWTInverseM_axes', 'WV.C01.DWTForward_eq_wavedec2', 'WV.C01M.DWTForward_multi']
+THEOREMS = ['WV.C14.DWTForwardM_level_axes', 'WV.C14.DWTForwardM_two_eq_four', 'WV.C14.DWTInverseM_two_eq_four', 'WV.C14.DWTInverseM_axes', 'WV.C01.DWTForward_eq_wavedec2', 'WV.C01M.DWTForward_multi', 'WV.C10Z.module_glue_gen']
 OPS = ['DWTForward', 'DWTInverse', 'afb2d', 'sfb2d', 'AFB2D_fwd', 'SFB2D_fwd']
 
 
